@@ -37,7 +37,7 @@ ITEMS = [
  ("Hashes", [], "MD5=aa11"), ("Hashes", ["contains", "all"], ["MD5=aa11", "sha1=bb22"]), ("Hashes", ["neq"], ["SHA1=cc33", "MD5=dd44"]),
  ("Hash", ["contains"], "IMPHASH=ee55"), ("", ["windash"], "-kw"), ("", ["cased"], "Kw"), ("h6", ["hour", "gte"], 22),
  # the SAME field in several selections with different kinds of values (candidates for one in-list)
- ("fP", [], "c"), ("fQ", [], 7), ("fP", ["cased"], "D"),
+ ("fP", [], "c"), ("fQ", [], 7), ("fP", ["cased"], "D"), ("fxf", [], "v"),
 ]
 KW = [["foo", "ba*r"], [1], ["single"], ["k1", 2]]
 out = ["----------------------------- MODULE RuleItems -----------------------------",
